@@ -1,5 +1,5 @@
 use poulpy_hal::{
-    layouts::{Data, DataMut, DataRef, FillUniform, ReaderFrom, WriterTo},
+    layouts::{Backend, Data, DataMut, DataRef, FillUniform, Module, ReaderFrom, WriterTo},
     source::Source,
 };
 
@@ -203,6 +203,8 @@ where
     }
 }
 
+impl<B: Backend> GGLWEToGGSWKeyDecompress for Module<B> where Self: GGLWEDecompress {}
+
 // module-only API: decompression is provided by `GGLWEToGGSWKeyDecompress` on `Module`.
 
 /// Converts a compressed GGLWE-to-GGSW key to an immutably-borrowed variant.
@@ -226,6 +228,12 @@ where
 pub trait GGLWEToGGSWKeyCompressedToMut {
     /// Returns a mutably-borrowed view.
     fn to_mut(&mut self) -> GGLWEToGGSWKeyCompressed<&mut [u8]>;
+
+    /// Returns the PRNG seeds of the `i`-th compressed GGLWE.
+    ///
+    /// The view returned by [`to_mut`](Self::to_mut) owns a copy of the seeds, so seeds
+    /// written through it have to be stored back through this accessor.
+    fn seed_mut(&mut self, i: usize) -> &mut Vec<[u8; 32]>;
 }
 
 impl<D: DataMut> GGLWEToGGSWKeyCompressedToMut for GGLWEToGGSWKeyCompressed<D>
@@ -236,5 +244,9 @@ where
         GGLWEToGGSWKeyCompressed {
             keys: self.keys.iter_mut().map(|c| c.to_mut()).collect(),
         }
+    }
+
+    fn seed_mut(&mut self, i: usize) -> &mut Vec<[u8; 32]> {
+        &mut self.keys[i].seed
     }
 }
